@@ -213,6 +213,17 @@ fn pass_gal(p: &PassRec) -> String {
     )
 }
 
+pub fn random_pp(r: &mut Rng) -> PP {
+    PP {
+        // one set in eight is extreme: the fee of a real payload then does not fit 64 bits
+        coef: match r.below(16) { 0 => *r.pick(&[u64::MAX, u64::MAX / 100, 1u64 << 60]), 1..=4 => 0, 5..=8 => 44, 9..=12 => r.below(1001), _ => *r.pick(&[1u64, 2, 1000]) },
+        constant: match r.below(24) { 0 => *r.pick(&[u64::MAX, u64::MAX - 1000]), 1..=8 => 0, 9..=16 => 155381, _ => r.below(1_000_001) },
+        extra: match r.below(24) { 0 => Some(u64::MAX), 1..=8 => None, 9..=16 => Some(0), _ => Some(r.below(500_000)) },
+        coins: *r.pick(&[1u64, 4310, u64::MAX]),
+        mainnet: r.chance(1, 2),
+    }
+}
+
 pub fn run_c05(ctx: &mut Ctx) {
     let mut r = Rng::new(ctx.seed ^ 0xC05);
     let n_cases = if ctx.thorough { 60_000 } else { 3_000 };
@@ -231,13 +242,7 @@ pub fn run_c05(ctx: &mut Ctx) {
     )];
     for _ in 0..n_cases {
         let kind = r.below(6);
-        let pp = PP {
-            coef: match r.below(4) { 0 => 0, 1 => 44, 2 => r.below(1001), _ => *r.pick(&[1u64, 2, 1000]) },
-            constant: match r.below(3) { 0 => 0, 1 => 155381, _ => r.below(1_000_001) },
-            extra: match r.below(3) { 0 => None, 1 => Some(0), _ => Some(r.below(500_000)) },
-            coins: *r.pick(&[1u64, 4310]),
-            mainnet: r.chance(1, 2),
-        };
+        let pp = random_pp(&mut r);
         let q: i128 = *r.pick(&[1_000_000i128, 2_000_000, 10_000_000, 23, 24, 255, 256, 65_535, 65_536]);
         // change amounts straddling CBOR width steps: 23/24, 2^8, 2^16, 2^32
         let boundary: i128 = *r.pick(&[24i128, 256, 65_536, 4_294_967_296]);
@@ -307,7 +312,7 @@ pub fn run_c05(ctx: &mut Ctx) {
     ctx.meta.insert("samples".into(), serde_json::json!(samples));
     ctx.meta.insert(
         "rule".into(),
-        serde_json::json!("resolve_tx through a recording Compiler wrapper on 5 templates (fees in outputs and/or min_amount, with and without min_utxo) x pparams (coefficient in {0, 44, 0..1000}, constant in {0, 155381, 0..10^6}, extra_fees in {None, 0, n}) x UTxO amounts directed at CBOR width steps of the change (23/24, 2^8, 2^16, 2^32, within +-12000) and random x max_rounds in {0, 3, 10}; distinct = distinct printed case (pass trace + result)"),
+        serde_json::json!("resolve_tx through a recording Compiler wrapper on 5 templates (fees in outputs and/or min_amount, with and without min_utxo) x pparams (coefficient in {0, 44, 0..1000}, constant in {0, 155381, 0..10^6}, extra_fees in {None, 0, n}; about one set in eight has a coefficient, constant or margin near 2^64) x UTxO amounts directed at CBOR width steps of the change (23/24, 2^8, 2^16, 2^32, within +-12000) and random x max_rounds in {0, 3, 10}; distinct = distinct printed case (pass trace + result)"),
     );
 }
 
